@@ -5,11 +5,12 @@ LEVEL = "model_checking"
 
 
 def check(run):
-    cpu_common.run_cpu(run, ["mem", "pert", "flags"],
+    cpu_common.run_cpu(run, ["mem", "pert", "edge", "seq", "flags"],
                        "mem = every opcode with all pointer registers / operands steered into WRAM, echo, HRAM, VRAM (LCD off), cartridge RAM, sound I/O and ROM; the bus log gives the "
                        "machine cycle of every Mapper.Read/Write and must equal the access plan of SM83!Exec (cycle, direction, address, value); "
                        "pert = the harness rewrites every candidate address before each machine cycle and snapshots it after each cycle, so the value consumed identifies the read cycle "
                        "and the snapshot identifies the write cycle without trusting the bus hook; flags = taken/not-taken variants. "
+                       "edge = boundary operand bytes / pointer low bytes (address carries); seq = generated programs executed back to back without resetting the CPU between instructions; "
                        "distinct_nontrivial = distinct (opcode, cycles, flags) tuples", "C03")
 
 
